@@ -192,6 +192,74 @@ fn outer_contexts(k: &mut i32, hole: &Expr) -> Vec<(&'static str, Expr)> {
     ]
 }
 
+/// every cond of 1-3 clauses over {(test e), (test), (test => f)} x {test true, test false}, with and without else
+pub fn cond_shapes() -> Vec<(String, Vec<Form>)> {
+    let mut out = vec![];
+    for len in 1..=3usize {
+        for code in 0..6usize.pow(len as u32) {
+            for with_else in [false, true] {
+                let mut k = 0;
+                let mut clauses = vec![];
+                let mut name = String::new();
+                let mut x = code;
+                for ci in 0..len {
+                    let (kind, truth) = ((x % 6) / 2, (x % 6) % 2 == 0);
+                    x /= 6;
+                    let test = if truth { tk(&mut k, Expr::Int(10 + ci as i32)) } else { tk(&mut k, Expr::Bool(false)) };
+                    name.push_str(&format!("{}{} ", ["then", "test-only", "=>"][kind], if truth { "+" } else { "-" }));
+                    clauses.push(match kind {
+                        0 => Clause::Then(test, vec![tk(&mut k, Expr::Int(100 + ci as i32))]),
+                        1 => Clause::Test(test),
+                        _ => Clause::Arrow(test, Expr::Lambda(Formals { fixed: vec!["v".into()], rest: None }, body1(tk(&mut k, app("list", vec![var("v"), Expr::Int(ci as i32)]))))),
+                    });
+                }
+                let els = if with_else { Some(vec![tk(&mut k, Expr::Int(999))]) } else { None };
+                let e = app("list", vec![Expr::Cond(clauses, els), tk(&mut k, Expr::Int(0))]);
+                out.push((format!("cond {}{}", name, if with_else { "else" } else { "" }), vec![Form::Expr(e)]));
+            }
+        }
+    }
+    out
+}
+
+/// every case of 1-3 clauses over {body, => f} x {key listed, key not listed}, atom and compound key, else variants
+pub fn case_shapes() -> Vec<(String, Vec<Form>)> {
+    let mut out = vec![];
+    for len in 1..=3usize {
+        for code in 0..4usize.pow(len as u32) {
+            for els_kind in 0..3 {
+                for compound in [false, true] {
+                    let mut k = 0;
+                    let mut clauses = vec![];
+                    let mut name = String::new();
+                    let mut x = code;
+                    for ci in 0..len {
+                        let (arrow, hit) = ((x % 4) / 2 == 1, (x % 4) % 2 == 0);
+                        x /= 4;
+                        let keys = if hit { vec![Datum::Int(50 + ci as i32), Datum::Int(7)] } else { vec![Datum::Int(50 + ci as i32), Datum::Sym("q".into())] };
+                        name.push_str(&format!("{}{} ", if arrow { "=>" } else { "body" }, if hit { "+" } else { "-" }));
+                        let body = if arrow {
+                            CaseBody::Arrow(Box::new(Expr::Lambda(Formals { fixed: vec!["v".into()], rest: None }, body1(tk(&mut k, app("list", vec![var("v"), Expr::Int(ci as i32)]))))))
+                        } else {
+                            CaseBody::Exprs(vec![tk(&mut k, Expr::Int(100 + ci as i32))])
+                        };
+                        clauses.push((keys, body));
+                    }
+                    let els = match els_kind {
+                        0 => None,
+                        1 => Some(CaseBody::Exprs(vec![tk(&mut k, Expr::Int(999))])),
+                        _ => Some(CaseBody::Arrow(Box::new(Expr::Lambda(Formals { fixed: vec!["v".into()], rest: None }, body1(tk(&mut k, app("list", vec![var("v"), Expr::Int(-1)]))))))),
+                    };
+                    let key = if compound { tk(&mut k, app("+", vec![Expr::Int(3), Expr::Int(4)])) } else { Expr::Int(7) };
+                    let e = app("list", vec![Expr::Case(Box::new(key), clauses, els), tk(&mut k, Expr::Int(0))]);
+                    out.push((format!("case{} {}else:{}", if compound { "(compound key)" } else { "" }, name, els_kind), vec![Form::Expr(e)]));
+                }
+            }
+        }
+    }
+    out
+}
+
 pub fn pair_family() -> Vec<(String, Vec<Form>)> {
     let mut out = vec![];
     let mut k = 0;
@@ -257,6 +325,15 @@ pub fn run(ctx: &Ctx) {
         judge(forms, &mut rep);
         Some(rep)
     });
+    for (sub, fam) in [("cond-shapes", cond_shapes()), ("case-shapes", case_shapes())] {
+        ctx.indexed(sub, fam.len() as u64, 1, |i| {
+            let (name, forms) = &fam[i as usize];
+            let mut rep = Report::new(format!("{} :: {}", name, program_text(forms)));
+            rep.nontrivial = true;
+            judge(forms, &mut rep);
+            Some(rep)
+        });
+    }
     let cases = ctx.tier.pick(3_000, 60_000);
     let depth = ctx.tier.pick(4, 6);
     ctx.random("programs", cases, 800, |ch| random_case(ch, depth));
